@@ -277,6 +277,24 @@ func (s *Session) Churn(nNodes, nSpare, steps int) {
 				// leave right after the advisory, while the successor's lock is still held
 				if s.Do("joinbegin", U(j), U(Pick(rng, members))) == "ok" {
 					s.Do("jointasks", U(j))
+					// the joiner's predecessor-to-be has not been told yet and still sees the locked node as its
+					// successor: one leave attempt of it inside this window (refused while the lock is held)
+					if p, ok := s.PredOf(j); ok && p != j && len(members) > 2 && rng.Chance(75) {
+						if res := s.Do("execleave", U(p)); strings.HasPrefix(res, "ok") {
+							if f := strings.Split(res, ":"); len(f) == 3 {
+								s.Do("leavefinish", U(p), f[1], f[2])
+							} else {
+								s.Do("leavefinish", U(p), U(p), U(p))
+							}
+							var rest []uint64
+							for _, m := range members {
+								if m != p {
+									rest = append(rest, m)
+								}
+							}
+							members = rest
+						}
+					}
 					s.Do("joinadvise", U(j))
 					members = append(members, j)
 					if p, ok := s.PredOf(j); ok && len(members) > 2 && rng.Chance(60) {
